@@ -1,6 +1,7 @@
 # C05 Only a valid, unexpired, untampered connect token from its own address connects
 import re
 from sa.rules import *
+from sa.rules import MIRROR, NEGATE
 import rules.wave3 as W3
 import rules.shared as shared
 from rules.netcode_common import *
@@ -145,8 +146,9 @@ def rules(t):
         id_tests = [c for c in t.calls(r"find_client(_mut|_slot)?_by_id$|NetcodeServer::is_client_connected$", p) if p.dominates(c.bb, s.bb)]
         if not id_tests:
             for c in t.calls(r"Iterator::(any|position|find)$|::any$|::position$", p):
-                cl = [g for g in t.fns() if "{closure" in g.path and t.closure_creator(g) is not None and t.closure_creator(g).fn is p and fmt(t.arg(c, 1)).startswith(short(g.path)[:10])]
-                if p.dominates(c.bb, s.bb) and any("client_id" in fmt(g.origin_of_local(0)) or any("client_id" in fmt(br2["raw"]) for br2 in t.branches(g) if br2["kind"] == "bool") for g in t.fns() if g.path.startswith(p.path + "::{closure")): id_tests.append(c)
+                mine = [g for g in fn_and_closures(t, p) if g is not p]      # closures created in p, including those of helpers inlined into p
+                tagged = [g for g in mine if re.search(r"\{closure#\d+\}$", g.path) and re.search(r"\{closure#\d+\}$", g.path).group(0) in fmt(t.arg(c, 1))] or mine
+                if p.dominates(c.bb, s.bb) and any("client_id" in fmt(g.origin_of_local(0)) or any("client_id" in fmt(br2["raw"]) for br2 in t.branches(g) if br2["kind"] == "bool") for g in tagged): id_tests.append(c)
         if not id_tests: r.bad("no-id-test", s, "slot fill not dominated by an already-connected test"); continue
         if method_of(callee_name(id_tests[0].node)) not in ("any", "position", "find"):
             # the fill must lie on an edge on which the lookup is KNOWN to have found nothing: `.is_some()` false / `.is_none()` true / matched on None /
@@ -166,7 +168,7 @@ def rules(t):
                 r.bad("id-test-weakened", s, "the slot is filled on a path on which the id lookup is not known to have failed (the already-connected test is combined with another condition): a second session can be admitted for an id that is still in the table")
         tested = t.arg(id_tests[0], 1) if len(id_tests[0].node["args"]) > 1 else ("unknown",)
         if method_of(callee_name(id_tests[0].node)) in ("any", "position", "find"):
-            cs = [t.closure_creator(g) for g in t.fns() if g.path.startswith(p.path + "::{closure") and t.closure_creator(g) is not None]
+            cs = [t.closure_creator(g) for g in fn_and_closures(t, p) if g is not p and t.closure_creator(g) is not None]
             tested = ("closure-upvars", tuple(t.stored(c_) for c_ in cs if c_.fn is p))
         inserted_from_pending = True
         if t.mentions_call(tested, r"ChallengeToken::decode$") and not guard("client_id"):
@@ -199,6 +201,22 @@ def rules(t):
         for rel in ("Ge",):
             for e, br in rel_edges(t, g, is_now, is_exp, rel):
                 if not any(b2 is br for _, b2 in rel_edges(t, g, is_now, is_exp, "Gt")) and not any(b2 is br for _, b2 in rel_edges(t, g, is_now, is_exp, "Le")): r.bad("op", Site(g, br["bb"], 0, g.blocks[br["bb"]]["term"]), "pending expiry boundary changed (expected now_secs > expire_timestamp)")
+    # the same test as the predicate of an adaptor over the pending sessions: `.values_mut().filter(|p| now_secs > p.expire_timestamp).for_each(|p| p.state = Disconnected)`
+    for g in fn_and_closures(t, u):
+        if g is u: continue
+        o0 = strip(resolved(t, g.origin_of_local(0), g)); neg_ = False
+        while isinstance(o0, tuple) and o0[0] == "un" and o0[1] == "Not": neg_ = not neg_; o0 = strip(o0[2])
+        c0 = t.norm_cond(o0)
+        if c0[0] != "cmp": continue
+        is_now_g = lambda a: "as_secs" in fmt(resolved(t, a, g)) and "current_time" in fmt(resolved(t, a, g))
+        is_exp_g = lambda b: fmt(b).rstrip(")").endswith("expire_timestamp")
+        op_ = c0[1] if (is_now_g(c0[2]) and is_exp_g(c0[3])) else (MIRROR[c0[1]] if (is_now_g(c0[3]) and is_exp_g(c0[2])) else None)
+        if op_ is None: continue
+        if neg_: op_ = NEGATE[op_]
+        found = True; r.site(Site(g, 0, 0, g.blocks[0]["term"]), "expiry predicate closure")
+        if op_ != "Gt": r.bad("op", Site(g, 0, 0, g.blocks[0]["term"]), "pending expiry boundary changed (expected now_secs > expire_timestamp)")
+        st = [s_ for g2 in fn_and_closures(t, u) for s_ in t.stores(CONN, "state", g2) if "Disconnected" in fmt(t.stored(s_))]
+        if not st: r.bad("state", None, "expired pending session is not marked Disconnected")
     if not found: r.bad("missing", None, "no `now_secs > expire_timestamp` test on pending sessions in update()")
     if not list(t.effects("pending_clients", {"retain"}, u)): r.bad("retain", None, "no retain() dropping disconnected pending sessions")
     out.append(r)
